@@ -7,6 +7,8 @@ ASSUME = [
     "the input text is read back by the harness's strict RFC 8259 reader; its dump (member order, raw names, number atoms via strconv incl. uint64 and both float32 roundings) is the document TLA+ J2P!J2PDoc interprets",
     "J2PDoc fixes the outcome only where C09 does: conforming documents -> that message (proto3 implicit presence applied); wrong-kind members, undecodable base64, unknown members under DisallowUnknownField -> error; "
     "out-of-range numbers, numeric strings, non-integer literals for integer fields, duplicate members/keys, unparsable map keys, null list elements, map key kinds outside the converter's declared set -> unspecified (only a panic is reported)",
+    "layer 2: TLA+ J2PVisitor models the converter's SAX-callback visitor (frame stack, pending descriptor, skip flag, speculative length prefixes); TLC checks its invariants for every conforming document up to the bounds, "
+    "and the real visitor's state, logged after every callback by the verif-tagged hook conv/j2p/trace_verif.go, is replayed through the model's reaction function and compared after every callback (Trace_J2PVisitor)",
     "an unaltered generated document must denote, per the spec, the very message it was printed from (generator-vs-spec cross-check, a harness error otherwise)",
 ]
 RULE = ("cases = every state of MC_J2P (canonical rendering of each universe message x {by JSON name, by field name, reversed order, unknown scalar/object/array member, null member, wrong-kind member} x DisallowUnknownField; "
@@ -32,9 +34,13 @@ def run(R):
     tr1 = os.path.join(R.scratch, "c09-a.ndjson")
     R.drive("c09", "out=" + tr1, "cases=" + cf, timeout=3000)
     R.validate("Trace_J2P", tr1, reset_events=("PSchema",), timeout=3000)
+    R.validate("Trace_J2PVisitor", tr1, reset_events=("PSchema",), timeout=3000)
     tr2 = os.path.join(R.scratch, "c09-b.ndjson")
     R.drive("c09", "out=" + tr2, "n=%d" % (300 if q else 6000), "seed=%d" % R.seed, timeout=3000)
     R.validate("Trace_J2P", tr2, reset_events=("PSchema",), timeout=3000)
+    R.validate("Trace_J2PVisitor", tr2, reset_events=("PSchema",), timeout=3000)
+    mv = R.model_check("MC_J2PVisitor", "MC_J2PVisitor.cfg" if q else "MC_J2PVisitor_thorough.cfg", timeout=3000, workers=8)
+    mv["records"] = None
     R.extra_cov["tlc_cases_replayed"] = len(cases)
     return vlib.finish(R, "model_checking", RULE, ASSUME)
 
@@ -47,4 +53,5 @@ def replay(R, path):
     tr = os.path.join(R.scratch, "replay-out.ndjson")
     R.drive("c09", "out=" + tr, "cases=" + cf)
     R.validate("Trace_J2P", tr, reset_events=("PSchema",), batches=1)
+    R.validate("Trace_J2PVisitor", tr, reset_events=("PSchema",), batches=1)
     return vlib.finish(R, "model_checking", RULE, ASSUME)
